@@ -23,7 +23,7 @@ CLAIMED = {
  "C11": K("bounded-liveness predicate after a fault-free window whose length is computed from the backlog, swarm over all size knobs", "After clients and faults stop, the server is granted a number of background periods computed from the stored backlog and the batch sizes; afterwards nothing may be overdue and the kernel must be quiescent (one run in three uses the task mix with failing hand-offs).", "DESIGN.md 5 C11"),
  "C12": K("exactly-one-response accounting on the production api/aio queues under tiny queues, subsystem failures and shutdown", "Every submitted request is counted: never two callbacks, exactly one by the end of the run (or lost only to a crash), explicit kernel error codes, graceful shutdown answers everything accepted; a production call that never returns (every goroutine blocked) is reported as a hang with its replay. A second phase runs the production Loop/Signal/Shutdown in a synctest bubble.", "DESIGN.md 5 C12"),
  "C14": K("per-page comparison with the state the page's transaction saw + traversal oracle across pages", "Each page must be the newest-first matching set of the state its search transaction saw, with a cursor iff full; a completed traversal must contain every item that matched throughout exactly once, in order; forged cursors are refused. Runs start from stored content (4-10 promises, 2-5 schedules with several tags), cursors are followed by the client that holds them.", "DESIGN.md 5 C14"),
- "C19": K("independent receiver resolution function checked against every hand-off of the production router + sender worker", "For every dispatched task the message must reach the transport and address the statement prescribes, with the body naming that exact task; unresolvable addresses must produce failed, retried hand-offs, never a message.", "DESIGN.md 5 C19"),
+ "C19": K("independent receiver resolution function checked against every hand-off of the production router + sender worker", "For every dispatched task the message must reach the transport and address the statement prescribes, with the body naming that exact task; unresolvable addresses must produce failed, retried hand-offs, never a message. A second phase (15 %) runs the poll transport itself (engine P): the bytes of a hand-off reported successful reach exactly one listener the address names, a full or absent listener fails the hand-off.", "DESIGN.md 5 C19"),
 }
 CLAIMED["C16"] = ("S", "deterministic simulation with fault injection: store-level refinement against an in-memory reference store, with failing statement positions and a mid-transaction observer",
   "Generated batches of store transactions (all 27 command kinds, small argument domains) run through the production Process/Execute/SQL on real SQLite and through the reference store; results and table contents compared after every batch; injected statement/begin/commit failures must fail every submission without effects; a second connection must see nothing before commit. A second phase (30 % of the budget) runs the kernel engine and requires every batch the production coroutines commit to refine the same reference store. Seeded sampling: evidence, not proof.",
